@@ -314,7 +314,7 @@ gen_alpha_map (gen_t *g, int slot, int map)
     if (map >= 0)
     {
 	if (!g->s[map].used || g->s[map].refs <= 0 || g->s[map].kind != MOP_BITS) return;
-	if (g->s[slot].alpha_of > 0 || g->s[map].has_alpha >= 0) return;
+	if (g->s[slot].alpha_of > 0 || g->s[map].has_alpha >= 0 || map == slot) return;
     }
     if (g->s[slot].has_alpha != map)
     {
